@@ -173,6 +173,19 @@ def run(rng, tier, res=None, metrics=None):
                 viol("C07", f"{name} modified its argument arrays", meta)
             if bits(v1) != bits(v2) or bits(v1) != bits(v3):
                 viol("C07", f"{name} returned {v1!r} then {v2!r} / {v3!r} for the same argument values", meta)
+            # the value depends on argument VALUES only: the same buffer object refilled in place gives the new value
+            if c % 4 == 0:
+                try:
+                    buf = xa.copy(); _ = fn(buf, ya)
+                    buf[:] = za; vbuf = float(fn(buf, ya)); vfresh = float(fn(za.copy(), ya.copy()))
+                    if bits(vbuf) != bits(vfresh):
+                        viol("C07", f"{name}: a buffer refilled in place gives {vbuf!r}, fresh arrays with the same values give {vfresh!r}", meta)
+                    buf2 = ya.copy(); _ = fn(xa, buf2); buf2[:] = za
+                    if bits(float(fn(xa, buf2))) != bits(float(fn(xa.copy(), za.copy()))):
+                        viol("C07", f"{name}: a second-argument buffer refilled in place gives a stale value", meta)
+                    res.hit("buffer_reuse_checked")
+                except Exception as ex:
+                    viol("C07", f"{name} raised {type(ex).__name__} on a reused buffer", meta)
             # int-typed arrays must be usable too and leave the caller's data alone
             if special == "lattice" and all(float(v).is_integer() for v in x + y):
                 xi, yi = xa.astype(np.int64), ya.astype(np.int64)
